@@ -85,6 +85,14 @@ def gen_cases(tier, seed):
                                             continue
                                         cases.append(dict(kind="cg", n=n, spectrum=sp_name, U=U, b=bname, x0=x0, P=P,
                                                           asfn=asfn, max_iter=mi, tol=tol))
+    # max_iter and tol in other accepted numeric types (counts that come out of NumPy: np.int64 from arange / prod / integers)
+    for n in (2, 3, 5):
+        for P in ("none", "jacobi"):
+            for asfn in (False, True):
+                for mi in ("1", "n", "n+2"):
+                    for form in ("np.int64", "np.int32", "np.float64-tol"):
+                        cases.append(dict(kind="cg", n=n, spectrum="three", U="dft", b="complex", x0="zero", P=P, asfn=asfn,
+                                          max_iter=mi, tol=(1e-3 if form == "np.float64-tol" else 0), numform=form))
     # tol > 0 and a caller that keeps stepping by hand after the tolerance was met
     for n in (3, 5, 8):
         for sp_name in ("three", "geom100"):
@@ -245,7 +253,14 @@ def run_case(case, seed):
     tolx = 1e-6 if cond <= 100 else 1e-4
     strict = cond <= 100 or d <= 6
     refs, inv_at = krylov.krylov_iterates(A, b, x0, P, max_iter)
-    alg = sp.alg.ConjugateGradient(Aop, bb, xc, P=Pop, max_iter=max_iter, tol=case["tol"])
+    mi_arg, tol_arg = max_iter, case["tol"]
+    if case.get("numform") == "np.int64":
+        mi_arg = np.int64(max_iter)
+    elif case.get("numform") == "np.int32":
+        mi_arg = np.arange(max_iter + 1, dtype=np.int32)[-1]
+    elif case.get("numform") == "np.float64-tol":
+        tol_arg = np.float64(case["tol"])
+    alg = sp.alg.ConjugateGradient(Aop, bb, xc, P=Pop, max_iter=mi_arg, tol=tol_arg)
     scale = max(np.linalg.norm(xstar), 1e-300)
     err_prev = anorm(A, x0 - xstar)
     e0 = max(err_prev, 1e-300)
